@@ -1,8 +1,13 @@
+import SignaloModel.Proofs.ConfigProofs
 import SignaloModel.Proofs.RegistryProofs
 /-!
 # C12 — Reset returns every filter to its freshly constructed behaviour
 
-Property theorems for C12 (statements are printed by `#check`, axioms by `#print axioms`;
+Property theorems for C12 (statements are printed by `#check`, axioms by `#check @Registry.config_filter
+#check @Registry.config_run
+#check @Registry.reset_after_history
+#check @MedianL.step_length
+#print axioms`;
 `bin/check C12` re-elaborates this file on every run and audits the axiom lists).
 -/
 open SignaloModel
@@ -18,3 +23,7 @@ open SignaloModel
 #print axioms Registry.config_reset
 #print axioms Registry.reset_reset
 #print axioms Registry.run_reset_eq_fresh
+#print axioms Registry.config_filter
+#print axioms Registry.config_run
+#print axioms Registry.reset_after_history
+#print axioms MedianL.step_length
